@@ -601,6 +601,80 @@ impl Check for Inference {
     }
 }
 
+/// Literal bodies, character by character: every string of length <= 3 over a 13-character alphabet
+/// (letters, backslash, both quotes, the escape letters, `|`, parentheses, blank, braces, a digit)
+/// between single quotes and between double quotes, in an accepted and in a rejected context.
+pub struct Literals {
+    bodies: Vec<String>,
+    chunk: usize,
+    scratch: Option<Scratch>,
+}
+const LIT_ALPHABET: [char; 13] = ['a', '\\', '\'', '"', 'n', '|', '(', ')', ' ', 'u', '{', '}', '0'];
+impl Literals {
+    pub fn new() -> Self {
+        let mut bodies = vec![String::new()];
+        let mut frontier = vec![String::new()];
+        for _ in 0..3 {
+            let mut next = vec![];
+            for p in &frontier {
+                for c in LIT_ALPHABET {
+                    let mut q = p.clone();
+                    q.push(c);
+                    next.push(q);
+                }
+            }
+            bodies.extend(next.iter().cloned());
+            frontier = next;
+        }
+        Literals { bodies, chunk: 16, scratch: None }
+    }
+}
+impl Check for Literals {
+    fn property(&self) -> &'static str {
+        "C10"
+    }
+    fn name(&self) -> String {
+        "c10-literals".into()
+    }
+    fn len(&self) -> usize {
+        self.bodies.len().div_ceil(self.chunk)
+    }
+    fn describe(&self, i: usize) -> String {
+        format!("literal bodies #{}..#{}; first {:?} (between single and double quotes, in `ret <lit>` and in `let x = <lit> in ret x x`)", i * self.chunk, (i + 1) * self.chunk, self.bodies[i * self.chunk])
+    }
+    fn rule(&self) -> String {
+        format!("every character string of length <= 3 over the 13-character alphabet {:?} ({} bodies) as the body of a char literal and of a string literal, each in an accepted context (`ret <lit>`) and in a rejected one (`let x = <lit> in ret x x`, so that a diagnostic is rendered): the front end returns a verdict and never unwinds; non-trivial = bodies with a backslash or a quote", LIT_ALPHABET, self.bodies.len())
+    }
+    fn crash_is_violation(&self) -> bool {
+        true
+    }
+    fn timeout(&self) -> Duration {
+        Duration::from_secs(30)
+    }
+    fn run(&mut self, i: usize) -> CaseResult {
+        let scratch = self.scratch.get_or_insert_with(|| Scratch::new("c10l"));
+        let a = i * self.chunk;
+        let b = ((i + 1) * self.chunk).min(self.bodies.len());
+        let mut r = CaseResult::ok("bodies").key(hash64(&format!("lit{i}")));
+        let mut nontrivial = false;
+        let mut n = 0u64;
+        for body in &self.bodies[a..b] {
+            if body.contains('\\') || body.contains('\'') || body.contains('"') {
+                nontrivial = true;
+            }
+            for q in ['\'', '"'] {
+                for ctx in ["ret LIT", "let x = LIT in\nret x x"] {
+                    let text = ctx.replace("LIT", &format!("{q}{body}{q}"));
+                    n += 1;
+                    assess(scratch, "main.zydeco", &text, &mut r, "literals");
+                }
+            }
+        }
+        r.nontrivial = nontrivial;
+        r.count("inputs", n)
+    }
+}
+
 pub fn checks(tier: Tier) -> Vec<Box<dyn Check>> {
     vec![
         Box::new(Inference::new(tier)),
@@ -610,5 +684,6 @@ pub fn checks(tier: Tier) -> Vec<Box<dyn Check>> {
         Box::new(IllFormed::new()),
         Box::new(Bytes { scratch: None }),
         Box::new(Edits::new(tier)),
+        Box::new(Literals::new()),
     ]
 }
